@@ -267,4 +267,214 @@ theorem parts_plain (l : List (Str × Str)) (h : ∀ a ∈ l, a.1 ≠ sClass ∧
     simp only at hx
     simp [otherPart, classPart, stylePart, hx.1, hx.2, h1, h2, h3]
 
+
+/-! ### well-formed attribute lists -/
+
+def plainNameOK (n : Str) : Bool := attrNameOK n && n != sClass && n != sStyle
+
+/-- names tokenizable and not `class`/`style`, values without NUL/CR, class strings without
+Unicode-only white space -/
+def tattrOK : TAttr → Bool
+  | .plain _ n v => plainNameOK n && clean v
+  | .flag n => plainNameOK n
+  | .boolDyn n _ => plainNameOK n
+  | .cls _ v => clean v && wsOK v
+  | .style _ v => clean v
+  | .clsToggle n _ => clean n && wsOK n
+  | .clsTuple n _ => clean n && wsOK n
+  | .styleKV _ n v => clean n && clean v
+
+def plainNames : List TAttr → List Str
+  | [] => []
+  | .plain _ n _ :: r => n :: plainNames r
+  | .flag n :: r => n :: plainNames r
+  | .boolDyn n _ :: r => n :: plainNames r
+  | _ :: r => plainNames r
+
+def isCls : TAttr → Bool
+  | .cls _ _ => true
+  | _ => false
+
+def isStyle : TAttr → Bool
+  | .style _ _ => true
+  | _ => false
+
+/-- what the macro accepts on one element (as far as the grammar goes): distinct ordinary names, at most
+one `class=` and one `style=` -/
+def tattrsOK (attrs : List TAttr) : Bool :=
+  attrs.all tattrOK && decide (plainNames attrs).Nodup &&
+    decide ((attrs.filter isCls).length ≤ 1) && decide ((attrs.filter isStyle).length ≤ 1)
+
+theorem plainFlat_append (a b : List Attr) : plainFlat (a ++ b) = plainFlat a ++ plainFlat b := by
+  induction a with
+  | nil => rfl
+  | cons x a ih =>
+    cases x with
+    | bool n on => cases on <;> simp [plainFlat, ih]
+    | _ => simp [plainFlat, ih]
+
+theorem plainFlat_key0 (attrs : List TAttr) :
+    plainFlat ((attrs.filter (fun a => sortKey a = 0)).map builderAttr) = [] := by
+  induction attrs with
+  | nil => rfl
+  | cons a r ih => cases a <;> simp [List.filter_cons, sortKey, builderAttr, plainFlat, ih]
+
+theorem plainFlat_key2 (attrs : List TAttr) :
+    plainFlat ((attrs.filter (fun a => sortKey a = 2)).map builderAttr) = [] := by
+  induction attrs with
+  | nil => rfl
+  | cons a r ih => cases a <;> simp [List.filter_cons, sortKey, builderAttr, plainFlat, ih]
+
+theorem plainFlat_key1 (attrs : List TAttr) :
+    plainFlat ((attrs.filter (fun a => sortKey a = 1)).map builderAttr) = plainDen attrs := by
+  induction attrs with
+  | nil => rfl
+  | cons a r ih =>
+    cases a with
+    | boolDyn n b => cases b <;> simp [List.filter_cons, sortKey, builderAttr, plainFlat, plainDen, ih]
+    | _ => simp [List.filter_cons, sortKey, builderAttr, plainFlat, plainDen, ih]
+
+theorem plainFlat_builder (attrs : List TAttr) : plainFlat (builderAttrs attrs) = plainDen attrs := by
+  simp [builderAttrs, sortAttrs, plainFlat_append, plainFlat_key0, plainFlat_key1, plainFlat_key2]
+
+theorem mem_sortAttrs {a : TAttr} {attrs : List TAttr} (h : a ∈ sortAttrs attrs) : a ∈ attrs := by
+  simp only [sortAttrs, List.mem_append, List.mem_filter] at h
+  rcases h with (h | h) | h <;> exact h.1
+
+theorem plainDen_names (attrs : List TAttr) : ((plainDen attrs).map (·.1)).Sublist (plainNames attrs) := by
+  induction attrs with
+  | nil => exact List.Sublist.slnil
+  | cons a r ih =>
+    cases a with
+    | boolDyn n b =>
+      cases b
+      · simpa [plainDen, plainNames] using List.Sublist.cons _ ih
+      · simpa [plainDen, plainNames] using List.Sublist.cons₂ _ ih
+    | plain d n v => simpa [plainDen, plainNames] using List.Sublist.cons₂ _ ih
+    | flag n => simpa [plainDen, plainNames] using List.Sublist.cons₂ _ ih
+    | _ => simpa [plainDen, plainNames] using ih
+
+theorem plainNames_ok (attrs : List TAttr) (h : attrs.all tattrOK = true) :
+    ∀ n ∈ plainNames attrs, plainNameOK n = true := by
+  induction attrs with
+  | nil => simp [plainNames]
+  | cons a r ih =>
+    simp only [List.all_cons, Bool.and_eq_true] at h
+    have ih' := ih h.2
+    cases a <;> simp_all [plainNames, tattrOK]
+
+theorem plainDen_ok (attrs : List TAttr) (h : attrs.all tattrOK = true) :
+    ∀ a ∈ plainDen attrs, a.1 ≠ sClass ∧ a.1 ≠ sStyle := by
+  intro a ha
+  have hn : a.1 ∈ plainNames attrs := (plainDen_names attrs).subset (List.mem_map_of_mem (f := (·.1)) ha)
+  have := plainNames_ok attrs h a.1 hn
+  simp only [plainNameOK, Bool.and_eq_true, bne_iff_ne, ne_eq] at this
+  exact ⟨this.1.2, this.2⟩
+
+theorem sClass_ne_sStyle : sClass ≠ sStyle := by decide
+
+theorem joinSep_nil_iff_class (l : List Str) (h : ∀ t ∈ l, t ≠ []) : joinSep ' ' l = [] ↔ l = [] := by
+  cases l with
+  | nil => simp [joinSep]
+  | cons a r =>
+    cases r with
+    | nil => simpa [joinSep] using h a (by simp)
+    | cons b r => simp [joinSep]
+
+/-- class attribute of the builder path, normalised -/
+theorem classPart_builder (L : List TAttr) (hws : ∀ s ∈ clsStrings L, wsOK s = true) :
+    classPart (if classBuf (L.map builderAttr) = [] then [] else [(sClass, trim (classBuf (L.map builderAttr)))]) =
+      optAttr sClass (joinSep ' ' (classDen L)) := by
+  split
+  · next h => simp [classPart, classDen_nil_of_classBuf_nil L h, joinSep, optAttr]
+  · simp only [classPart, if_true, List.append_nil, normClass]
+    have : classTokens (trim (classBuf (L.map builderAttr))) = classDen L := by
+      rw [← classTokens_classBuf]
+      exact tok_trim isClassSep _ (classBuf_ws L hws)
+    rw [this]
+
+theorem stylePart_builder (L : List TAttr) :
+    stylePart (if styleBuf (L.map builderAttr) = [] then [] else [(sStyle, trim (styleBuf (L.map builderAttr)))]) =
+      optAttr sStyle (normStyle (styleSrc L)) := by
+  rw [styleBuf_builder]
+  split
+  · next h => simp [stylePart, h, optAttr, normStyle, stylePieces, tok, flush, joinSep]
+  · simp only [stylePart, if_true, List.append_nil]
+    rw [normStyle_trim _ (styleSrc_end L)]
+
+theorem clsStrings_sort (attrs : List TAttr) (h : attrs.all tattrOK = true) :
+    ∀ s ∈ clsStrings (sortAttrs attrs), wsOK s = true := by
+  intro s hs
+  simp only [clsStrings, List.mem_flatMap] at hs
+  obtain ⟨a, ha, hsa⟩ := hs
+  have hok := List.all_eq_true.mp h a (mem_sortAttrs ha)
+  cases a <;> simp_all [attrClassStrings, tattrOK]
+
+/-- **attributes, builder path**: what tachys prints for the sorted builder attributes normalises to what
+the template gives the element -/
+theorem normAttrs_builder (attrs : List TAttr) (h : attrs.all tattrOK = true) :
+    normAttrs (expectedAttrs (builderAttrs attrs)) = denAttrs attrs := by
+  obtain ⟨p1, p2, p3⟩ := parts_plain (plainDen attrs) (plainDen_ok attrs h)
+  have hc := classPart_builder (sortAttrs attrs) (clsStrings_sort attrs h)
+  have hs := stylePart_builder (sortAttrs attrs)
+  have hcs : stylePart (if classBuf (builderAttrs attrs) = [] then [] else [(sClass, trim (classBuf (builderAttrs attrs)))]) = [] := by
+    split <;> simp [stylePart, sClass_ne_sStyle]
+  have hco : otherPart (if classBuf (builderAttrs attrs) = [] then [] else [(sClass, trim (classBuf (builderAttrs attrs)))]) = [] := by
+    split <;> simp [otherPart]
+  have hsc : classPart (if styleBuf (builderAttrs attrs) = [] then [] else [(sStyle, trim (styleBuf (builderAttrs attrs)))]) = [] := by
+    split <;> simp [classPart, sClass_ne_sStyle.symm]
+  have hso : otherPart (if styleBuf (builderAttrs attrs) = [] then [] else [(sStyle, trim (styleBuf (builderAttrs attrs)))]) = [] := by
+    split <;> simp [otherPart]
+  unfold normAttrs expectedAttrs denAttrs
+  simp only [otherPart_append, classPart_append, stylePart_append, plainFlat_builder, p1, p2, p3, hcs, hco, hsc, hso,
+    List.append_nil, List.nil_append]
+  unfold builderAttrs at *
+  rw [hc, hs]
+
+theorem attrClean_builder (a : TAttr) (h : tattrOK a = true) : attrClean (builderAttr a) = true := by
+  cases a <;> simp_all [tattrOK, builderAttr, attrClean, plainNameOK]
+
+theorem expectedNames_nodup (attrs : List TAttr) (h : tattrsOK attrs = true) :
+    ((expectedAttrs (builderAttrs attrs)).map (·.1)).Nodup := by
+  simp only [tattrsOK, Bool.and_eq_true, decide_eq_true_eq] at h
+  obtain ⟨⟨⟨hall, hnd⟩, _⟩, _⟩ := h
+  have hsub := plainDen_names attrs
+  have hp : ((plainDen attrs).map (·.1)).Nodup := hnd.sublist hsub
+  have hne := plainDen_ok attrs hall
+  unfold expectedAttrs
+  rw [plainFlat_builder]
+  simp only [List.map_append]
+  refine List.nodup_append.mpr ⟨List.nodup_append.mpr ⟨hp, ?_, ?_⟩, ?_, ?_⟩
+  · split <;> simp
+  · intro a ha b hb
+    obtain ⟨x, hx, rfl⟩ := List.mem_map.mp ha
+    split at hb
+    · simp at hb
+    · simp only [List.map_cons, List.map_nil, List.mem_singleton] at hb
+      subst hb; exact (hne x hx).1
+  · split <;> simp
+  · intro a ha b hb
+    split at hb
+    · simp at hb
+    · simp only [List.map_cons, List.map_nil, List.mem_singleton] at hb
+      subst hb
+      rcases List.mem_append.mp ha with ha | ha
+      · obtain ⟨x, hx, rfl⟩ := List.mem_map.mp ha
+        exact (hne x hx).2
+      · split at ha
+        · simp at ha
+        · simp only [List.map_cons, List.map_nil, List.mem_singleton] at ha
+          subst ha; exact sClass_ne_sStyle
+
+theorem attrsOK_builder (attrs : List TAttr) (h : tattrsOK attrs = true) : attrsOK (builderAttrs attrs) = true := by
+  have hnd := expectedNames_nodup attrs h
+  simp only [tattrsOK, Bool.and_eq_true, decide_eq_true_eq] at h
+  obtain ⟨⟨⟨hall, _⟩, _⟩, _⟩ := h
+  simp only [attrsOK, Bool.and_eq_true, decide_eq_true_eq, List.all_eq_true]
+  refine ⟨?_, hnd⟩
+  intro b hb
+  simp only [builderAttrs, List.mem_map] at hb
+  obtain ⟨a, ha, rfl⟩ := hb
+  exact attrClean_builder a (List.all_eq_true.mp hall a (mem_sortAttrs ha))
+
 end Leptos.Macro
